@@ -471,8 +471,12 @@ def deleteBranch (cfg : Cascade.Cfg) (lits : Lits) (st : Repo) (name : Ref) (rec
     match st.heads.get name with
     | none => done .nothingToDo
     | some tip =>
-      -- do not allow deleting a branch if the archive tag is already there
-      if !Dest.isHotfix d && hasTag st.tags (verText d) then fail (.archiveTag (verText d)) else
+      -- do not allow deleting a branch if the archive tag is already there, unless that tag archives this very
+      -- branch (`git rev-list -n 1 <tag>` = the tip): a previous deletion was interrupted between the push of the
+      -- tag and the removal of the branch and is completed now (`archived = True`)
+      let archived := hasTag st.tags (archiveTag lits d)
+      if archived && tagCommit st.tags (archiveTag lits d) != some tip then
+        fail (.archiveTag (archiveTag lits d)) else
       -- do not allow deleting a dev branch if there is a stab
       if d.isDev && stabAlive st.heads d then fail .stabAlive else
       let pre : Result ⊕ List AOp :=
@@ -487,8 +491,9 @@ def deleteBranch (cfg : Cascade.Cfg) (lits : Lits) (st : Repo) (name : Ref) (rec
       match pre with
       | .inl r => r
       | .inr qops =>
-        -- `git tag <archive_tag>` fails when the tag exists (the check above does not cover a hotfix branch)
-        if hasTag st.tags (archiveTag lits d) then { outcome := .failure .tagPush, ops := qops }
+        -- `if not archived:` tag the tip and push the tag (the tag does not exist: `git tag` cannot fail on it;
+        -- a push the server refuses - `Why.tagPush` - is the subject of C02/C08); then remove the branch
+        if archived then { outcome := .success, ops := qops ++ [.ref (.delete name)] }
         else { outcome := .success,
                ops := qops ++ [.pushTag (archiveTag lits d) tip, .ref (.delete name)] }
 
